@@ -1,6 +1,6 @@
 SPECIFICATION Spec
 CONSTANTS
-  Scenarios <- EnvScenarios
+  ScenarioSets <- EnvScenarioSets
   Order <- EnvOrder
   Dev <- EnvDev
 INVARIANT TypeOK
